@@ -85,25 +85,19 @@ def collect_diffs(ctx, trace_path, mode, nchunk=NCHUNK, pair=False):
 
 
 def feat(r):
-    """Input class of a record (part of the failure signature)."""
-    fs = set()
-    for k in ('s0', 's1', 's2'):
-        o = r.get(k)
-        if not o:
-            continue
-        if 193 <= o['c'] <= 208:
-            fs.add('neginl')            # negative inline integer constant
-        if 240 <= o['c'] <= 248 and o.get('n', 1) == 2:
-            fs.add('inlf64')            # inline float constant read by a 64-bit operand
-    if r.get('tag') == 'special_src':
-        fs.add('vcclo32')               # 32-bit read of VCC_LO as a scalar source
-    return '+'.join(sorted(fs))
+    """Input class of a record (part of the failure signature): how a source operand is supplied."""
+    codes = [(r[k]['c'], r[k].get('n', 1)) for k in ('s0', 's1', 's2') if r.get(k)]
+    if any(193 <= c <= 208 for c, _ in codes):
+        return 'neginl'                 # negative inline integer constant
+    if any(240 <= c <= 248 and n == 2 for c, n in codes):
+        return 'inlf64'                 # inline float constant read by a 64-bit operand
+    return ''
 
 
 def signature(r, out, pid):
     s = {'kind': 'isa_mismatch' if pid == 'C03' else 'lane_structure', 'arch': r['arch'], 'fmt': r['f'], 'op': r['op'],
          'out': out}
-    f = feat(r)
+    f = feat(r) if pid == 'C03' else ''
     if f:
         s['feat'] = f
     return s
@@ -334,9 +328,11 @@ def run(ctx, selftest=False):
     for cfg, to in lim:
         r = ctx.tlc_expect_ok(SPEC_DIRS, 'MC_Limbs.tla', cfg if thorough else 'MC_Limbs_quick.cfg', timeout=to)
         ctx.log('MC_Limbs %s: %d states (every operator = native arithmetic on 8-bit words)' % (cfg if thorough else 'quick', r.distinct))
-    r = ctx.tlc_expect_ok(SPEC_DIRS, 'MC_ISA.tla', 'MC_ISA_big.cfg' if thorough else 'MC_ISA.cfg', coverage=True, timeout=1800)
+    # (-coverage is not used here: with the constant-level opcode tables TLC's cost statistics make the run take
+    #  tens of minutes; vacuity is excluded by the WellFormed invariant - every table entry is evaluated, an
+    #  unmatched CASE is a TLC error - and by the binding self-test below)
+    r = ctx.tlc_expect_ok(SPEC_DIRS, 'MC_ISA.tla', 'MC_ISA_big.cfg' if thorough else 'MC_ISA.cfg', timeout=1800)
     ctx.log('MC_ISA: %d states, laws of the transcription hold' % r.distinct)
-    ctx.cov['coverage_zero_actions'] = r.coverage_zero()
     if thorough:
         ctx.cov['exhaustive'] = True
 
